@@ -302,6 +302,26 @@ def _branch(ps, cond, pol):
             t = ps.env[a["path"]].truth()
             if t is not None and t != apol:
                 return False
+        # `p != NULL` / `p == NULL` / `r != 0` on a local that holds the result of a call: the truth test of that result
+        if a.k == "BinaryOperator" and a.get("op") in ("==", "!="):
+            handled = False
+            for xs, cs in ((a.child(0), a.child(1)), (a.child(1), a.child(0))):
+                x_ = xs.strip_all_casts()
+                if x_.k == "DeclRefExpr" and x_["decl"]["kind"] == "local" and (C.const_of(cs) == 0 or C.is_null(cs)):
+                    v = ps.env.get(x_["decl"]["name"])
+                    if v is not None and v.kind in ("call", "callres"):
+                        tpol = apol if a["op"] == "!=" else (not apol)
+                        if v.kind == "callres":
+                            if v.pol is not None and v.pol != tpol:
+                                return False
+                        else:
+                            ps.env[x_["decl"]["name"]] = AVal("callres", node=v.node, pol=tpol)
+                            ps.facts.append((v.node, tpol))
+                            ps.events.append(("branch", v.node, tpol))
+                            _expand_helper(ps, v.node, tpol)
+                        handled = True
+                        break
+            # the comparison itself stays a fact as well (rules that look for `result == 0` keep finding it)
         # value sets of scalars that are compared with constants (shared with the switch bookkeeping): x == c / x != c
         if a.k == "BinaryOperator" and a.get("op") in ("==", "!="):
             for xs, cs in ((a.child(0), a.child(1)), (a.child(1), a.child(0))):
